@@ -168,6 +168,9 @@ def rule_b(ctx, idx, A):
                 else:
                     ctx.hold("C01.b", con, mod.rel, node.lineno, "store inside Command.run")
             else:
+                if attr == A.memo and fi is not None and fi.cls is A.command and _release_protocol(idx, A, fi, node):
+                    raise AnalysisError("C01.b: Command.%s drops the stored result of a finished command and raises a marker that makes the `result` accessor refuse from then on (a release protocol): "
+                                        "whether any consumer can still need the result at that point is outside the who-may-write rule" % fi.name)
                 ctx.violate("C01.b", con, mod.rel, node.lineno, "`%s` is written outside Command.__init__/Command.run: %s" % (attr, K.src(node)))
     # __init__ must initialise with the idle constants
     if A.init is not None:
@@ -422,6 +425,28 @@ def rule_g(ctx, idx, A):
     if ok is None:
         raise AnalysisError("C01.g: %s" % why)
     ctx.ob("C01.g", con, K.rel(fi), line, ok, why)
+
+
+def _release_protocol(idx, A, fi, node):
+    """`self.<memo> = None` in a Command method, under a test that the command is finished, together with `self.<F> = True` for a
+    flag F that the result accessor tests first thing, raising when it is set; the finished flag itself is not touched."""
+    sn = K.self_name(fi)
+    body = [x for x in own_nodes(fi.node)]
+    if any(isinstance(x, ast.Attribute) and isinstance(x.ctx, ast.Store) and x.attr == A.flag for x in body):
+        return False
+    guards = [x for x in body if isinstance(x, ast.If) and K.src(x.test) == "%s.%s" % (sn, A.flag) and any(node is y for st in x.body for y in ast.walk(st))]
+    if not guards:
+        return False
+    marks = [st.targets[0].attr for st in guards[0].body if isinstance(st, ast.Assign) and len(st.targets) == 1 and isinstance(st.targets[0], ast.Attribute)
+             and isinstance(st.value, ast.Constant) and st.value.value is True and st.targets[0].attr not in (A.flag, A.memo)]
+    acc = A.command.methods.get("result")
+    if not marks or acc is None:
+        return False
+    first = acc.node_orig.body[0] if getattr(acc, "node_orig", None) is not None else acc.node.body[0]
+    if isinstance(first, ast.Expr) and isinstance(first.value, ast.Constant):
+        rest = (acc.node_orig if getattr(acc, "node_orig", None) is not None else acc.node).body
+        first = rest[1] if len(rest) > 1 else first
+    return isinstance(first, ast.If) and isinstance(first.test, ast.Attribute) and first.test.attr in marks and first.body and isinstance(first.body[-1], ast.Raise)
 
 
 def rule_h(ctx, idx, A, rule="C01.h"):
